@@ -50,11 +50,7 @@ func keyEnv(keys []*externalKey) *ev.Env {
 	return env
 }
 
-func report(e *ev.Evaluator) {
-	for _, f := range e.Failures {
-		symx.Fail("generated code: " + f)
-	}
-}
+func report(e *ev.Evaluator) { e.Report() }
 
 func bytesEqual(a, b []byte) bool {
 	if len(a) != len(b) {
@@ -428,9 +424,12 @@ func H_C05_L8_bytes() {
 	or := newTestObfRand()
 	isPtr := symx.Choose(2) == 1
 	isArray := symx.Choose(2) == 1
+	alen := n
 	var call ast.Expr
 	if isArray {
-		call = obfuscateByteArray(or, isPtr, data, int64(n))
+		// [N]byte{...} may list fewer elements than N: the rest is zero
+		alen = n + symx.Choose(2)
+		call = obfuscateByteArray(or, isPtr, data, int64(alen))
 	} else {
 		call = obfuscateByteSlice(or, isPtr, data)
 	}
@@ -448,13 +447,17 @@ func H_C05_L8_bytes() {
 		}
 		if isArray {
 			a, isA := got.(ev.Arr)
-			symx.Assert(isA && a.IsArray && len(a.E) == n, "the replacement is a [n]byte")
-			if isA && len(a.E) == n {
+			symx.Assert(isA && a.IsArray && len(a.E) == alen, "the replacement is a [N]byte")
+			if isA && len(a.E) == alen {
 				eq := true
-				for i := range orig {
-					eq = symx.And(eq, byte(a.E[i].V) == orig[i])
+				for i := range a.E {
+					want := byte(0)
+					if i < len(orig) {
+						want = orig[i]
+					}
+					eq = symx.And(eq, byte(a.E[i].V) == want)
 				}
-				symx.Assert(eq, "the obfuscated array evaluates to the original")
+				symx.Assert(eq, "the obfuscated array evaluates to the original, zero padded")
 			}
 		} else {
 			b, isB := got.(ev.Bytes)
@@ -513,4 +516,21 @@ func H_C05_L9_proxy() {
 	})
 	_ = ok
 	report(e)
+}
+
+// H_C05_L6b_shuffle_big: shuffle.obfuscate where the shuffled buffer exceeds
+// 256 entries (index arithmetic beyond one byte). The permutation draw is
+// restricted to one order; data, keys, operators and index keys stay symbolic.
+func H_C05_L6b_shuffle_big() {
+	installStubs()
+	symx.DrawPolicy(func(method string, n int) int {
+		if method == "Perm" {
+			return 1
+		}
+		if method == "Intn" && n == 129 {
+			return 3 // index key of 2 bytes
+		}
+		return 0
+	})
+	checkObfuscator(shuffle{}, 129, symx.Rand(), symKeys(2, []int{0}))
 }
